@@ -1780,6 +1780,10 @@ def C15(ctx):
                         pp_ = parse(t) if t else None
                         if pp_ and payload_of(pp_) in inherited:
                             sig = 'back_pending_events_of_a_copy_run_on_the_original'
+                        # ... or the first visible effect is the pending count (the inherited occurrence left the copy's queue
+                        # but ran on the original, or was stored on the original)
+                        if t and t.startswith('pend=') and inherited:
+                            sig = 'back_pending_events_of_a_copy_run_on_the_original'
                 fail('C15', 'object %d (a copy) does not behave like a fresh machine given the same history: op %s, token %d: %s vs %s'
                      % (obj, cases.op_str(ctx.case[idx]), j, a[j] if j < len(a) else None, b[j] if j < len(b) else None), ctx, idx,
                      copy_trace=' '.join(a), fresh_trace=' '.join(b), sig=sig)
